@@ -339,6 +339,8 @@ def p_sparse_bincount(I, st, fr, e, c, a):
     x = _seq(I, st, a[0])
     k, cn = ("spkeys", x), ("spcounts", x)
     term_facts(st, k)
+    if st.ge(t_len(x), 1):
+        st.add_ge(Poly.atom(("nuniq", x)) - 1)      # a non-empty array has at least one distinct value
     return [(st, VTup([VSeq(k), VSeq(cn)]), None)]
 
 
